@@ -205,7 +205,7 @@ def build_cases(ctx, t):
         small = [c for c in cases if sum(len(x) for x in c["script"]) <= 3 and all(len(x) <= 1 for x in c["script"][1:])]
         rest = [c for c in cases if c not in small]
         ctx.rng.shuffle(rest)
-        cases = small + rest[:1800]
+        cases = small + rest[:1200]
     rg = ctx.tlc("Tracer_Gen", cfg=RACE_GEN, timeout=600, count=False)
     ctx.tlc_ok("Tracer_Gen (kill races)", rg)
     rc = [c for c in ctx.read_ndjson(os.path.join(rg.dir, "cases.ndjson"))
@@ -231,6 +231,11 @@ def build_cases(ctx, t):
         rest = [c for c in hc if c not in pin]
         ctx.rng.shuffle(rest)
         hc = pin + rest[:12]
+    else:
+        small = [c for c in hc if sum(len(x) for x in c["script"]) <= 3]
+        rest = [c for c in hc if c not in small]
+        ctx.rng.shuffle(rest)
+        hc = small + rest[:600]
     cases += hc
     return cases, total_cases
 
